@@ -106,7 +106,8 @@ impl Validator {
             }))
             .collect::<Vec<String>>();
         let mut visited_headers = HashSet::<String>::new();
-        while let Some(key) = keys.pop() {
+        keys.reverse();
+        for key in keys.clone() {
             if matches![
                 self.tlds.get(&key),
                 Some(ToplevelDefinition::Object(ToplevelInformationDefinition {
@@ -200,6 +201,10 @@ impl Validator {
                     }
                 };
             }
+        }
+        // Values are linked against the types that govern them, whose constraints
+        // must have been resolved whatever the names of the definitions involved
+        for key in keys {
             if let Some((k, mut tld)) = self.tlds.remove_entry(&key) {
                 if let Err(mut e) = tld.collect_supertypes(&self.tlds) {
                     e.contextualize(&key);
